@@ -4,7 +4,7 @@
 use super::c05::{lef_artefact, lef_err_sig};
 use crate::engine::*;
 use crate::gen_lef::*;
-use crate::rng::{fnv64, Digest, Tape};
+use crate::rng::{fnv64, Digest};
 use crate::simio::*;
 use lef21::LefLibrary;
 use serde_json::{json, Value};
